@@ -733,11 +733,11 @@ class Output(object):
             self.script_type = 'p2pkh'
             if self.encoding == 'bech32':
                 self.script_type = 'p2wpkh'
-        if not self.script and strict and (self.public_hash or self.public_key):
+        if not self.script and (self.public_hash or self.public_key):
             self.script = Script(script_types=[self.script_type], public_hash=self.public_hash, keys=[self.public_key],
                                  sigs_required=self.witver if self.script_type == 'p2tr' else None)
             self.lock_script = self.script.serialize()
-            if not self.script:
+            if not self.script and strict:
                 raise TransactionError("Unknown output script type %s, please provide locking script" %
                                        self.script_type)
         self.spending_txid = spending_txid
